@@ -610,7 +610,7 @@ func (c *compiler) arrayOperator(l interface{}, r interface{}, op string) (inter
 			}
 		}
 		if err == nil {
-			return reflect.Append(reflect.ValueOf(l), reflect.ValueOf(r)), nil
+			return reflect.Append(reflect.ValueOf(l), reflect.ValueOf(r)).Interface(), nil
 		}
 	default:
 		err = fmt.Errorf("unkown operator (%s) on %T and %T ", op, l, r)
